@@ -201,8 +201,9 @@ pub fn parse_stream(b: &[u8], eof: bool) -> (Vec<RespView>, StreamEnd) {
     loop {
         if prev_nonempty_body && b.len() >= pos + 2 && &b[pos..pos + 2] == b"\r\n" {
             pos += 2;
-        } else if prev_nonempty_body && b.len() == pos + 1 && b[pos] == b'\r' && !eof {
-            return (out, StreamEnd::Incomplete { at: pos, why: "half of the tolerated CRLF".into() });
+        } else if prev_nonempty_body && b.len() == pos + 1 && b[pos] == b'\r' {
+            // half of the tolerated CRLF (the reader stopped before the LF arrived)
+            return (out, if eof { StreamEnd::Clean } else { StreamEnd::Incomplete { at: pos, why: "half of the tolerated CRLF".into() } });
         }
         prev_nonempty_body = false;
         if pos >= b.len() {
